@@ -601,6 +601,22 @@ def run(ctx: Context) -> None:
     for s_, t_, miss in rows:
         ctx.add("R10", f"{s_.func.qualname}::replace-keeps-maintained-columns::{t_.split('.')[-1]}", not miss, s_.where, "" if not miss else f"INSERT OR REPLACE INTO {t_} omits {miss}, which UPDATE statements of the same component write: the value is lost whenever the row is written again")
     ctx.floor("R10", "replace statements", len(rows), 15)
+    # R11: a backend operation that failed says so on both backends: no handler of a Mem* / SQLite* component turns an
+    # exception into a normal result (the in-memory sibling has no such failure and would answer differently)
+    ctx.rule("R11", "no method of an in-memory or SQLite component swallows an exception (every `except` ends in `raise`); the single allowed site is the bounded retry of `database is locked` in the connection wrapper")
+    ALLOWED = {"pynenc.util.sqlite_utils.SQLiteConnection.execute": "bounded retry on 'database is locked', re-raises afterwards"}
+    n11 = 0
+    for c in ctx.repo.classes.values():
+        if not (c.name.startswith(("Mem", "SQLite")) and c.module.name.startswith("pynenc.")):
+            continue
+        for m in c.methods.values():
+            n11 += 1
+            hs = [h for h in ast.walk(m.node) if isinstance(h, ast.ExceptHandler) and not (h.body and isinstance(h.body[-1], ast.Raise))]
+            if m.qualname in ALLOWED:
+                ctx.ok("R11", f"{m.qualname}::errors-are-not-swallowed", m.loc(), "allowed: " + ALLOWED[m.qualname])
+                continue
+            ctx.add("R11", f"{m.qualname}::errors-are-not-swallowed", not hs, m.loc(hs[0]) if hs else m.loc(), "" if not hs else f"`except {ast.unparse(hs[0].type) if hs[0].type else ''}` ends without re-raising: a failed {c.name} operation is reported as an ordinary result (empty / default / done), which the sibling backend - where the failure cannot occur - never returns for that state")
+    ctx.floor("R11", "backend methods", n11, 150)
     ctx.exhaustive = True
     ctx.not_decided += [
         "equivalence over operation sequences and agreement with an executable reference model (behavioural)",
